@@ -111,12 +111,14 @@ def check(op, before, after, result, warned, dpre, killed, lock_held):
     return bad
 
 
-def run_one(exe, shim, d, op, use_rename, lock, plan=None, kill=None, hold_lock=False):
+def run_one(exe, shim, d, op, use_rename, lock, plan=None, kill=None, hold_lock=False, err=None):
     env = dict(os.environ, VERIF_DIR=d, VERIF_OP=op, VERIF_USE_RENAME="1" if use_rename else "0",
                VERIF_LOCK="1" if lock else "0", LD_PRELOAD=shim)
     env.pop("VERIF_ARMED", None)
     if plan:
         env["FAULT_PLAN"] = plan
+    if err:
+        env["FAULT_ERRNO"] = err
     if kill:
         env["FAULT_KILL"] = kill
     holder = None
@@ -155,12 +157,15 @@ def main():
         points = [(k, i) for k in kinds for i in (1, 2)]
         plans = [None] + ["%s:%d" % p for p in points] + ["%s:%d,%s:%d" % (a + b) for a, b in itertools.combinations(points, 2)]
         for plan in plans:
-            setup(d, dpre); before = snap(d)
-            res, warned, rc, out = run_one(exe, shim, d, op, use_rename, False, plan=plan)
-            runs += 1
-            bad = check(op, before, snap(d), res, warned, dpre, False, False)
-            if bad:
-                found.append({"op": op, "use_rename": use_rename, "target_exists": dpre, "fault_plan": plan, "result": res, "violations": bad})
+            # single faults are tried with every error class the property names, double faults with EIO
+            errs = [None] if (plan is None or "," in plan) else [None, "EACCES", "EPERM", "ENOSPC", "EXDEV", "EOPNOTSUPP"]
+            for err in errs:
+                setup(d, dpre); before = snap(d)
+                res, warned, rc, out = run_one(exe, shim, d, op, use_rename, False, plan=plan, err=err)
+                runs += 1
+                bad = check(op, before, snap(d), res, warned, dpre, False, False)
+                if bad:
+                    found.append({"op": op, "use_rename": use_rename, "target_exists": dpre, "fault_plan": plan, "errno": err or "EIO", "result": res, "violations": bad})
         for k, i in points:
             for when in ("before", "after"):
                 setup(d, dpre); before = snap(d)
